@@ -95,7 +95,7 @@ def run(ctx):
     T0 = time.time()
     ph = ctx.cov.setdefault('phase_s', {})
     sl = slices(ctx)
-    sl.update(random_slices(ctx, 3 if ctx.quick else 16))
+    sl.update(random_slices(ctx, 2 if ctx.quick else 16))
     ctx.cov["bounds"] = {k: {kk: (vv if kk != "Boxes" or len(vv) <= 6 else f"{len(vv)} boxes") for kk, vv in b.items()}
                          for k, (b, _) in sl.items()}
     ctx.cov["bounds"]["grid"] = "6x6 unit cells centred at the origin; transforms enabled while the image stays inside"
@@ -123,7 +123,7 @@ def run(ctx):
     ctx.cov["exhaustive"] = True
     exported = [(n, cs) for n, cs in done if cs is not None]
     rnd = random.Random(ctx.seed)
-    cap = 2000 if ctx.quick else 20000
+    cap = 1500 if ctx.quick else 20000
     chains, origin = [], []
     ctx.cov["behaviours_exported"] = {}
     for name, cs in exported:
